@@ -300,6 +300,140 @@ theorem popBatch_consistent {st : RStore} (h : Consistent st) (ids : List Nat) :
   | nil => exact h
   | cons id ids ih => exact ih (popOne_consistent h id)
 
+/-! ## the executable oracle -/
+
+theorem all_toList_iff {β : Type} (m : ExtTreeMap Nat β) (p : Nat × β → Bool) :
+    m.toList.all p = true ↔ ∀ (k : Nat) (v : β), m[k]? = some v → p (k, v) = true := by
+  rw [List.all_eq_true]
+  constructor
+  · intro h k v hv; exact h (k, v) ((ExtTreeMap.mem_toList_iff_getElem?_eq_some).2 hv)
+  · rintro h ⟨k, v⟩ hm; exact h k v ((ExtTreeMap.mem_toList_iff_getElem?_eq_some).1 hm)
+
+theorem all_set_toList_iff (m : ExtTreeSet Nat) (p : Nat → Bool) :
+    m.toList.all p = true ↔ ∀ e : Nat, e ∈ m → p e = true := by
+  rw [List.all_eq_true]
+  constructor
+  · intro h e he; exact h e (ExtTreeSet.mem_toList.2 he)
+  · intro h e he; exact h e (ExtTreeSet.mem_toList.1 he)
+
+theorem keys_subset_of_all {β γ : Type} {m : ExtTreeMap Nat β} {m' : ExtTreeMap Nat γ}
+    (h : (m.toList.all fun kv => m'.contains kv.1) = true) (k : Nat) (hk : k ∈ m) : k ∈ m' := by
+  rw [all_toList_iff] at h
+  rw [ExtTreeMap.mem_iff_isSome_getElem?] at hk
+  cases hv : m[k]? with
+  | none => rw [hv] at hk; cases hk
+  | some v => exact ExtTreeMap.mem_iff_contains.2 (h k v hv)
+
+/-- the driver's oracle `consistentB` (evaluated on the implementation's raw keyspace dump) implies the invariant -/
+theorem consistentB_sound {st : RStore} (h : st.consistentB = true) : Consistent st := by
+  simp only [consistentB, Bool.and_eq_true] at h
+  obtain ⟨⟨⟨⟨⟨⟨⟨⟨⟨⟨⟨h1, h2⟩, h3⟩, h4⟩, h5⟩, h6⟩, h7⟩, h8⟩, h9⟩, h10⟩, h11⟩, h12⟩ := h
+  rw [all_toList_iff] at h3 h4 h5 h7 h12
+  rw [all_set_toList_iff] at h6
+  refine ⟨?_, ?_, ?_, ?_, ?_, ?_, ?_⟩
+  · intro k; exact ⟨keys_subset_of_all h1 k, keys_subset_of_all h2 k⟩
+  · intro k t
+    constructor
+    · intro hk
+      have := h4 k t hk
+      simp only at this
+      cases hr : st.items[k]? with
+      | none => rw [hr] at this; cases this
+      | some r =>
+        rw [hr] at this
+        exact ⟨r, rfl, by simpa using this⟩
+    · rintro ⟨r, hr, hrt⟩
+      have := h5 k r hr
+      simp only [hrt] at this
+      simpa using this
+  · intro k b hb
+    constructor
+    · intro hmem
+      have := h6 _ hmem
+      rw [stKey_div (by omega), stKey_mod (by omega)] at this
+      cases hr : st.items[k]? with
+      | none => rw [hr] at this; cases this
+      | some r =>
+        rw [hr] at this
+        simp only [Bool.and_eq_true] at this
+        exact ⟨r, rfl, this.2⟩
+    · rintro ⟨r, hr, hbit⟩
+      have := h7 k r hr
+      simp only [List.all_eq_true, mem_bitIdx, beq_iff_eq] at this
+      rw [ExtTreeSet.mem_iff_contains, ← this b hb]; exact hbit
+  · intro k r hr
+    have := h3 k r hr
+    simpa using this
+  · intro k; exact ⟨keys_subset_of_all h8 k, keys_subset_of_all h9 k⟩
+  · intro k; exact ⟨keys_subset_of_all h10 k, keys_subset_of_all h11 k⟩
+  · intro k c hc
+    exact h12 k c hc
+
+theorem all_contains_of_subset {β γ : Type} {m : ExtTreeMap Nat β} {m' : ExtTreeMap Nat γ}
+    (h : ∀ k, k ∈ m → k ∈ m') : (m.toList.all fun kv => m'.contains kv.1) = true := by
+  rw [all_toList_iff]
+  intro k v hv
+  apply ExtTreeMap.mem_iff_contains.1
+  apply h
+  rw [ExtTreeMap.mem_iff_isSome_getElem?, hv]; rfl
+
+/-- the oracle is exactly the invariant plus "no status-set member outside bit range 0..8"
+(`Consistent` does not constrain junk members with bit index ≥ 9; the oracle rejects them) -/
+theorem consistentB_iff {st : RStore} :
+    st.consistentB = true ↔ Consistent st ∧ ∀ e : Nat, e ∈ st.statusSet → e % 16 < 9 := by
+  constructor
+  · intro h
+    refine ⟨consistentB_sound h, ?_⟩
+    simp only [consistentB, Bool.and_eq_true] at h
+    have h6 := h.1.1.1.1.1.1.2
+    rw [all_set_toList_iff] at h6
+    intro e he
+    have := h6 e he
+    cases hr : st.items[e / 16]? with
+    | none => rw [hr] at this; cases this
+    | some r => rw [hr] at this; simp only [Bool.and_eq_true, decide_eq_true_eq] at this; exact this.1
+  · rintro ⟨hc, hjunk⟩
+    simp only [consistentB, Bool.and_eq_true]
+    refine ⟨⟨⟨⟨⟨⟨⟨⟨⟨⟨⟨?_, ?_⟩, ?_⟩, ?_⟩, ?_⟩, ?_⟩, ?_⟩, ?_⟩, ?_⟩, ?_⟩, ?_⟩, ?_⟩
+    · exact all_contains_of_subset fun k => (hc.upd k).1
+    · exact all_contains_of_subset fun k => (hc.upd k).2
+    · rw [all_toList_iff]; intro k r hr; simpa using hc.keyed k r hr
+    · rw [all_toList_iff]; intro k t ht
+      obtain ⟨r, hr, hrt⟩ := (hc.ref k t).1 ht
+      simp [hr, hrt]
+    · rw [all_toList_iff]; intro k r hr
+      cases hrt : r.refreshedAt with
+      | some t => simpa using (hc.ref k t).2 ⟨r, hr, hrt⟩
+      | none =>
+        simp only [Bool.not_eq_true']
+        cases hcn : st.refreshed.contains k with
+        | false => rfl
+        | true =>
+          have hm : k ∈ st.refreshed := ExtTreeMap.mem_iff_contains.2 hcn
+          rw [ExtTreeMap.mem_iff_isSome_getElem?] at hm
+          cases ht : st.refreshed[k]? with
+          | none => rw [ht] at hm; cases hm
+          | some t =>
+            obtain ⟨r', hr', hrt'⟩ := (hc.ref k t).1 ht
+            rw [hr] at hr'; cases hr'; rw [hrt] at hrt'; cases hrt'
+    · rw [all_set_toList_iff]; intro e he
+      have hb := hjunk e he
+      have he' : stKey (e / 16) (e % 16) ∈ st.statusSet := by rw [stKey_div_mod]; exact he
+      obtain ⟨r, hr, hbit⟩ := (hc.sts (e / 16) (e % 16) hb).1 he'
+      simp [hr, hb, hbit]
+    · rw [all_toList_iff]; intro k r hr
+      simp only [List.all_eq_true, mem_bitIdx, beq_iff_eq]
+      intro b hb
+      rw [Bool.eq_iff_iff, ← ExtTreeSet.mem_iff_contains, hc.sts k b hb]
+      constructor
+      · intro h; exact ⟨r, hr, h⟩
+      · rintro ⟨r', hr', h⟩; rw [hr] at hr'; cases hr'; exact h
+    · exact all_contains_of_subset fun k => (hc.ins k).1
+    · exact all_contains_of_subset fun k => (hc.ins k).2
+    · exact all_contains_of_subset fun k => (hc.prb k).1
+    · exact all_contains_of_subset fun k => (hc.prb k).2
+    · rw [all_toList_iff]; intro k c hcell; exact hc.ttl k c hcell
+
 end RStore
 
 open RStore
@@ -403,5 +537,55 @@ theorem Sys.run_consistent {s : Sys} (h : Consistent s.store) (es : List Ev) : C
   induction es generalizing s with
   | nil => exact h
   | cons e es ih => exact ih (Sys.step_consistent h e)
+
+/-! ## vocabulary of the C10 statements -/
+
+/-- every atomic step (single command or one `MULTI…EXEC`) any repository can issue, with arbitrary arguments -/
+inductive AStep where
+  | save (svr : Server) (now : Int)
+  | remove (k : Nat)
+  | insAdd (id : Nat) (a : Addr) (now : Int)
+  | insRemove (id : Nat)
+  | insClear (ids : List Nat)
+  | enqueue (id : Nat) (p : Probe) (expires : GoTime) (ready : Int)
+  | pop (ids : List Nat)
+  | lockSetNX (k tok : Nat)
+  | lockDel (k : Nat)
+  | lockExpire (k : Nat) (dirties : Bool)
+  | touchLock (k : Nat) (w : Option Nat)
+
+def AStep.apply (st : RStore) : AStep → RStore
+  | .save svr now => st.saveBatch svr now
+  | .remove k => st.removeBatch k
+  | .insAdd id a now => st.insAddBatch id a now
+  | .insRemove id => st.insRemoveBatch id
+  | .insClear ids => st.insClearBatch ids
+  | .enqueue id p e r => st.enqueueBatch id p e r
+  | .pop ids => (st.popBatch ids).1
+  | .lockSetNX k tok => (st.lockSetNX k tok).1
+  | .lockDel k => st.lockDel k
+  | .lockExpire k d => st.lockExpire k d
+  | .touchLock k w => st.touchLock k w
+
+/-- one command of some queue / instance call in flight: any call, any pc, any clock, any fresh id -/
+structure QEv where
+  clock : Int
+  fresh : Nat
+  op : QOp
+  pc : QPC
+
+/-- commands of any number of queue / instance calls, interleaved in any order -/
+def runQs (st : RStore) (qs : List QEv) : RStore :=
+  qs.foldl (fun st q => (qstep st q.clock q.fresh q.op q.pc).1) st
+
+/-- events of the whole storage layer: registry clients' events and queue / instance commands -/
+inductive WEv where
+  | sys (e : Ev)
+  | q (q : QEv)
+
+def worldStep (s : Sys) : WEv → Sys
+  | .sys e => s.step e
+  | .q q => { s with store := (qstep s.store q.clock q.fresh q.op q.pc).1 }
+
 
 end Swat4
